@@ -13,6 +13,10 @@ PROP = "C18"
 
 def oracle(frames, seq, how, exc_kind):
     bad = []
+    # an asynchronous after-hook must not hold up the loop: the next frame is taken before a slow hook ends
+    order = [e[0] for e in seq if e[0] in ("recv", "after-done")]
+    if "after-done" in order and "recv" in order[order.index("after-done"):]:
+        bad.append(("hook-blocks-loop", "the loop waited for a slow asynchronous after-hook before taking the next frame"))
     recvs = [e[1] for e in seq if e[0] == "recv"]
     if recvs != list(range(len(frames) + 1)):
         bad.append(("recv-order", "recv was called %r times/order for %d frames" % (recvs, len(frames))))
@@ -62,6 +66,26 @@ def gen_cases(tier, seed):
                 c = rng.choice(pool)
                 frames.append(c[3] if len(str(c[3])) < 20000 else '[2,"x","Nope",{}]')
         cases.append((version, [hb], frames, rng.choice(["closed", "oserror", "cancelled", "eof"]), rng.random() < 0.3))
+    # fixed sequences: the same id again and again, null / falsy ids, more unsolicited replies than any
+    # small buffer holds, empty frames, a handler slower than the response timeout, a slow async after-hook
+    hbp = g.route("Heartbeat", ("ret", {"current_time": "t"}))
+    fixed = [
+        ['[2,"same","Heartbeat",{}]'] * 4,
+        ['[2,null,"Heartbeat",{}]', '[2,null,"Heartbeat",{}]', '[2,0,"Heartbeat",{}]', '[2,false,"Heartbeat",{}]', '[2,"","Heartbeat",{}]', '[2,"","Heartbeat",{}]'],
+        ['[2,"a","Heartbeat",{}]', '[2,"b","Nope",{}]', '[2,"a","Heartbeat",{}]', '[3,"a",{}]', '[2,"a","Heartbeat",{}]'],
+        ['[3,"r%d",{}]' % i for i in range(14)] + ['[4,"e%d","GenericError","",{}]' % i for i in range(14)] + ['[2,"after-replies","Heartbeat",{}]'],
+        ['', '[2,"x","Heartbeat",{}]', b'', '[2,"y","Heartbeat",{}]', ' ', '[2,"z","Heartbeat",{}]'],
+    ]
+    for fr in fixed:
+        cases.append(("1.6", [hbp], fr, "closed", False))
+        cases.append(("2.0.1", [hbp], fr, "oserror", True))
+    slow = g.route("Heartbeat", ("ret", {"current_time": "t"}), is_async=True)
+    slow["on"]["sleep"] = 0.05
+    cases.append(("1.6", [slow], ['[2,"s1","Heartbeat",{}]', '[2,"s2","Heartbeat",{}]'], "closed", False, 0.01))
+    hook = g.route("Heartbeat", ("ret", {"current_time": "t"}), after=("ret",), after_async=True)
+    hook.pop("after_first", None)
+    hook["after"]["sleep"] = 0.05
+    cases.append(("1.6", [hook], ['[2,"k1","Heartbeat",{}]', '[2,"k2","Heartbeat",{}]'], "closed", False))
     # every hostile frame once, between two ordinary CALLs: the loop must survive it and go on
     hostile = [c[3] for c in base.corpus() + g.stratum_frames() if isinstance(c[3], (str, bytes, bytearray))]
     seen = set()
@@ -70,7 +94,7 @@ def gen_cases(tier, seed):
         if key in seen or len(f) > 300000:
             continue
         seen.add(key)
-        if tier == "quick" and len(seen) % 3 and not (isinstance(f, str) and ('[]' in f[:12] or '{}' in f[:12] or len(f) > 1000)):
+        if tier == "quick" and len(seen) % 3 and len(f) > 2 and not (isinstance(f, str) and ('[]' in f[:12] or '{}' in f[:12] or len(f) > 1000)):
             continue
         hb = g.route("Heartbeat", ("ret", {"current_time": "t"}))
         cases.append(("1.6", [hb], ['[2,"h0","Heartbeat",{}]', f, '[2,"h1","Heartbeat",{}]'], "closed", False))
@@ -81,13 +105,15 @@ def body_factory(tier, seed):
     def body(rep, support_ok):
         cases = gen_cases(tier, seed)
         terms, meta = [], []
-        for (version, routes, frames, exc_kind, gate_held) in cases:
-            seq, how = D.observe_loop(version, routes, frames, exc_kind, gate_held)
+        for case in cases:
+            version, routes, frames, exc_kind, gate_held = case[:5]
+            rt = case[5] if len(case) > 5 else 30
+            seq, how = D.observe_loop(version, routes, frames, exc_kind, gate_held, response_timeout=rt)
             rep.count(json.dumps([version, repr(frames), exc_kind, gate_held], default=repr))
             rep.add("frames", len(frames))
             rep.add("end:" + exc_kind)
             replay = {"kind": "loop", "version": version, "routes": routes, "frames": [f if isinstance(f, str) else {"hex": bytes(f).hex()} for f in frames],
-                      "recv_exception": exc_kind, "gate_held": gate_held, "observation": seq, "ended": how}
+                      "recv_exception": exc_kind, "gate_held": gate_held, "response_timeout": rt, "observation": seq, "ended": how}
             for key, what in oracle(frames, seq, how, exc_kind):
                 rep.violation("C18:" + key, what, replay)
             los = [D.loads_outcome(f)[1] for f in frames]
@@ -142,7 +168,7 @@ def replay(d):
         for k in ("on", "after"):
             if r.get(k):
                 r[k]["out"] = tuple(r[k]["out"])
-    seq, how = D.observe_loop(d["version"], routes, frames, d["recv_exception"], d["gate_held"])
+    seq, how = D.observe_loop(d["version"], routes, frames, d["recv_exception"], d["gate_held"], response_timeout=d.get("response_timeout", 30))
     print("observation:", seq, how)
     bad = oracle(frames, seq, how, d["recv_exception"])
     print("FAILS: %s" % bad if bad else "HOLDS")
